@@ -128,6 +128,10 @@ def table(shape, nrows, fail=None):
         cols["x"] = list(xs)
     if shape == "both-rev":  # initial-value column first, parameter column second
         cols["k2"] = list(ks)
+    if shape in ("iapar", "iapar-both"):  # a column for the parameter that the model defines by an initial assignment
+        cols["q"] = [1.0, 3.0, 0.5, 2.0, 4.0, 1.5][:nrows]
+        if shape == "iapar-both":
+            cols["x"] = list(xs)
     if shape == "par-int":  # whole numbers stored as integers (a table read from a file, range(...), ...)
         cols["k2"] = [1, 2, 3, 4, 5, 6][:nrows]
     if shape == "both-int":
@@ -469,6 +473,8 @@ def generate(tier):
                     cases.append({"family": "seq", "model": model, "table": tbl, "kind": kind, "rows": rows, "read": list(read), "view_first": vf})
         cases.append({"family": "seq", "model": model, "table": tbl, "kind": kind, "rows": 5, "read": [4, 0, 3, 1, 2], "view_first": "fluxes"})
         cases.append({"family": "seq", "model": model, "table": tbl, "kind": kind, "rows": 3, "read": [2, 0, 1], "view_first": "fluxes", "labels": ["c", "a", "b"]})
+    for tbl, kind, warm in it.product(("iapar", "iapar-both"), seq_kinds + mc_kinds_early, (False, True)):
+        cases.append({"family": "seq", "model": "ia", "table": tbl, "kind": kind, "rows": 3, "read": [2, 0, 1], "view_first": "variables", "warm": warm})
     # a model that was already evaluated / simulated before it is scanned
     for model, tbl, kind in it.product(("ia", "cons", "derived"), ("par", "init", "both"), seq_kinds + mc_kinds_early):
         cases.append({"family": "seq", "model": model, "table": tbl, "kind": kind, "rows": 2, "read": [1, 0], "view_first": "fluxes", "warm": True})
